@@ -533,6 +533,7 @@ def check_conversion(kind, x):
 def run_shard(shard):
     acc = Acc()
     if shard[0] == "conv":
+        acc.sample({"scatter_conversion_lattice": {"T": CONV_T, "std": CONV_S}})
         for kind, vals in (("T", CONV_T), ("std", CONV_S)):
             for x in vals:
                 acc.cases += 1
@@ -561,8 +562,8 @@ def run_shard(shard):
         acc.evaluations += nev
         if nontrivial:
             acc.nontrivial += 1
-            if len(acc.samples) < 1 and case["k_2"] == "haibach" and case["TS"] is not None:
-                acc.sample({"curve": case, "ln N over the union load lattice at P=0.9": outcome[:8]})
+        if len(acc.samples) < 1 and case["k_2"] == "haibach" and case["TS"] is not None:
+            acc.sample({"curve": case, "ln N over the union load lattice at P=0.9 (first 8)": list(outcome[:8])})
         if _k2_value(case) == INF:
             acc.count("curves_with_endurance_plateau (cycles(load(N)) not judged for N > ND)")
         acc.outcomes.add(hash(outcome))
